@@ -48,53 +48,6 @@ fn merge_arr(into: &mut Vec<u64>, j: Option<&J>) {
     }
 }
 
-struct Finding {
-    property: String,
-    class: String,
-    site: String,
-    tags: Vec<String>,
-    what: String,
-    status: String,
-}
-
-fn load_findings() -> Vec<Finding> {
-    let path = format!("{}/known_findings.json", VERIF);
-    let txt = match std::fs::read_to_string(&path) {
-        Ok(t) => t,
-        Err(_) => return Vec::new(),
-    };
-    let j = match json::parse(&txt) {
-        Ok(j) => j,
-        Err(_) => return Vec::new(),
-    };
-    let mut out = Vec::new();
-    if let Some(a) = j.get("findings").and_then(|x| x.as_arr()) {
-        for f in a {
-            out.push(Finding {
-                property: f.s("property").to_string(),
-                class: f.s("class").to_string(),
-                site: f.s("site").to_string(),
-                tags: f.get("tags").and_then(|x| x.as_arr()).map(|a| a.iter().filter_map(|t| t.as_str().map(|s| s.to_string())).collect()).unwrap_or_default(),
-                what: f.s("what").to_string(),
-                status: f.s("status").to_string(),
-            });
-        }
-    }
-    out
-}
-
-/// A violation matches an open finding only if property, class, site and *all* listed tags agree.
-fn matches_finding(v: &J, f: &Finding) -> bool {
-    if f.status != "open" || v.s("property") != f.property || v.s("class") != f.class {
-        return false;
-    }
-    if !f.site.is_empty() && f.site != "*" && v.s("site") != f.site {
-        return false;
-    }
-    let tags: Vec<&str> = v.get("tags").and_then(|x| x.as_arr()).map(|a| a.iter().filter_map(|t| t.as_str()).collect()).unwrap_or_default();
-    f.tags.iter().all(|t| tags.contains(&t.as_str()))
-}
-
 fn read_digests(path: &str) -> Vec<(u64, u64, bool)> {
     let mut out = Vec::new();
     if let Ok(mut f) = std::fs::File::open(path) {
@@ -326,18 +279,12 @@ pub fn run_check(a: &CheckArgs) -> i32 {
         let _ = std::fs::remove_file(&dfile);
     }
 
-    // ---- triage violations against the known-findings file
-    let findings = load_findings();
+    // ---- known findings were already set aside by the workers (same file, same rule)
     let mut known_seen: BTreeMap<String, u64> = BTreeMap::new();
-    let mut unknown: Vec<J> = Vec::new();
-    for v in violations {
-        match findings.iter().find(|f| matches_finding(&v, f)) {
-            Some(f) => {
-                *known_seen.entry(format!("property={} {}", f.property, f.what)).or_default() += 1;
-            }
-            None => unknown.push(v),
-        }
+    for r in &reports {
+        merge_map(&mut known_seen, r.get("known"));
     }
+    let unknown: Vec<J> = violations;
     for (k, n) in &known_seen {
         println!("KNOWN-FINDING: {} (seen in {} run(s))", k, n);
     }
